@@ -30,7 +30,7 @@ func init() {
 		Level: "exploration",
 		Rule: "case = one generated op sequence over the store realm (pointers into one array, slices sharing a backing array incl. append within/over capacity and re-slicing, closures over heap items, maps of structs, " +
 			"interface-held declared types, linked structs; attach/detach/share/delete) executed in three modes (per-tx with restarts / single MsgRun / pure in-memory main package); " +
-			"non-trivial = the sequence contains >= 3 distinct op kinds and >= 1 aliasing op (Alias, BumpAlias, Window, Grow, Reslice, Share, AddFunc, CallFuncs, GrowSq); distinct by the op list. " +
+			"non-trivial = the sequence contains >= 3 distinct op kinds and >= 1 aliasing op (Alias, BumpAlias, Window, Grow, Reslice, Share, AddFunc, CallFuncs, GrowSq, SlotSwap, SlotRehome); distinct by the op list. " +
 			"Value-copy phase: case = one round Init / copy operation (22 kinds) / mutations of 1-3 sides / Read on one of 7 array/struct value shapes, same three modes; always non-trivial",
 		Run: run,
 	})
@@ -54,7 +54,7 @@ func pureSource(ops []hist.MsgSpec) string {
 	return b.String()
 }
 
-var stringArgs = map[string][]int{"Push": {0}, "PoolAdd": {0}, "Share": {0}, "Unshare": {0}, "MetaSet": {0}, "MetaDel": {0}, "Rename": {0}}
+var stringArgs = map[string][]int{"Push": {0}, "PoolAdd": {0}, "Share": {0}, "Unshare": {0}, "MetaSet": {0}, "MetaDel": {0}, "Rename": {0}, "SlotPut": {1}}
 
 func gnoArgs(o hist.MsgSpec) string {
 	var out []string
@@ -106,7 +106,7 @@ func normCall(data string) string {
 	return v
 }
 
-var aliasing = map[string]bool{"Alias": true, "BumpAlias": true, "Window": true, "Grow": true, "Reslice": true, "Share": true, "AddFunc": true, "CallFuncs": true, "GrowSq": true}
+var aliasing = map[string]bool{"Alias": true, "BumpAlias": true, "Window": true, "Grow": true, "Reslice": true, "Share": true, "AddFunc": true, "CallFuncs": true, "GrowSq": true, "SlotSwap": true, "SlotRehome": true}
 
 func run(c *vf.Ctx) {
 	n := c.N(24, 400)
